@@ -269,3 +269,73 @@ Proof.
     { intros Z. unfold pstep, pstepo in Hc. rewrite Z in Hc. discriminate Hc. }
     destruct (Head t true Nt (or_introl eq_refl)) as [rest Eo]. destruct (step2_go_enabled pof s true t c rest Eo Hc) as [s' Hs]. eauto.
 Qed.
+
+(* ================================================================================================
+   Quiescence with two paths (no guard): when no thread has an open request on either path, every pool of every process is
+   empty on both paths (lock objects dropped, descriptors closed) and no process holds a kernel lock on either file. *)
+
+Definition cnt_ok (s : state2) : Prop := forall t i, cnt_path i (ord s t) = length (gets (comp s i) t).
+
+Lemma step2_cnt_ok pof s l s' : cnt_ok s -> step2 pof s l = Some s' -> cnt_ok s'.
+Proof.
+  intros Oc H. destruct l as [i [t a]]. unfold step2 in H. destruct a as [sh b r|].
+  - destruct (pstep pof (comp s i) (t, PPush sh b r)) as [c|] eqn:E; [|discriminate]. injection H as <-.
+    destruct (pstep_length _ _ _ _ _ E) as [Lo Lt].
+    intros u j. rewrite ord_set_ord, ord_set_comp, comp_set_ord. destruct (Nat.eqb_spec u t) as [->|N].
+    + cbn [cnt_path]. rewrite Oc. destruct (Bool.eqb_spec i j) as [->|Nij].
+      * rewrite comp_set_comp_same, Lt. reflexivity.
+      * rewrite comp_other_eq by congruence. reflexivity.
+    + rewrite Oc. destruct (Bool.eqb_spec i j) as [->|Nij].
+      * rewrite comp_set_comp_same, (Lo u N). reflexivity.
+      * rewrite comp_other_eq by congruence. reflexivity.
+  - destruct (ord s t) as [|j rest] eqn:Eo; [discriminate|]. destruct (Bool.eqb_spec i j) as [->|Nij]; [|discriminate].
+    destruct (pstep pof (comp s j) (t, PGo)) as [c|] eqn:E; [|discriminate].
+    destruct (pstep_length _ _ _ _ _ E) as [Lo Lt]. pose proof (Oc t) as Oct. rewrite Eo in Oct.
+    destruct (length (gets c t) <? length (gets (comp s j) t)) eqn:Lb; injection H as <-.
+    + apply Nat.ltb_lt in Lb. intros u k. rewrite ord_set_ord, ord_set_comp, comp_set_ord. destruct (Nat.eqb_spec u t) as [->|N].
+      * specialize (Oct k). cbn [cnt_path] in Oct. destruct (Bool.eqb_spec j k) as [->|Njk].
+        -- rewrite comp_set_comp_same. lia.
+        -- rewrite comp_other_eq by congruence. lia.
+      * rewrite Oc. destruct (Bool.eqb_spec j k) as [->|Njk].
+        -- rewrite comp_set_comp_same, (Lo u N). reflexivity.
+        -- rewrite comp_other_eq by congruence. reflexivity.
+    + apply Nat.ltb_ge in Lb. intros u k. rewrite ord_set_comp. destruct (Nat.eq_dec u t) as [->|N].
+      * rewrite Eo. specialize (Oct k). destruct (Bool.eqb_spec j k) as [->|Njk].
+        -- rewrite comp_set_comp_same. lia.
+        -- rewrite comp_other_eq by congruence. exact Oct.
+      * rewrite Oc. destruct (Bool.eqb_spec j k) as [->|Njk].
+        -- rewrite comp_set_comp_same, (Lo u N). reflexivity.
+        -- rewrite comp_other_eq by congruence. reflexivity.
+Qed.
+
+Lemma reachable2_cnt_ok pof s : reachable2 pof s -> cnt_ok s.
+Proof.
+  induction 1 as [|s l s1 R IH H]; [exact (o_cnt _ inv2_init)|eapply step2_cnt_ok; eauto].
+Qed.
+
+Theorem two_paths_quiescent_lemma pof s :
+  reachable2 pof s -> (forall t, ord s t = []) ->
+  forall (i : bool) (p : nat),
+    tl_ref (getp (comp s i) p) = 0 /\ fd_ref (getp (comp s i) p) = 0 /\ pl_ref (getp (comp s i) p) = 0 /\
+    getk (comp s i) p = KNone.
+Proof.
+  intros R E i p. pose proof (reachable2_cnt_ok _ _ R) as Oc.
+  assert (Z : forall t, gets (comp s i) t = []).
+  { intros t. pose proof (Oc t i) as C. rewrite E in C. cbn in C. destruct (gets (comp s i) t); [reflexivity|discriminate C]. }
+  destruct (two_paths_project_lemma _ _ R) as [R0 R1].
+  destruct i; cbn [comp] in *; [exact (path_quiescent_lemma pof _ R1 Z p)|exact (path_quiescent_lemma pof _ R0 Z p)].
+Qed.
+
+(* running a two-path schedule *)
+Fixpoint run2 (pof : tid -> nat) (s : state2) (ls : list label2) : option state2 :=
+  match ls with
+  | [] => Some s
+  | l :: tl => match step2 pof s l with Some s' => run2 pof s' tl | None => None end
+  end.
+
+Lemma run2_reachable pof s ls s' : reachable2 pof s -> run2 pof s ls = Some s' -> reachable2 pof s'.
+Proof.
+  revert s. induction ls as [|l tl IH]; intros s R H; cbn in H.
+  - injection H as <-. exact R.
+  - destruct (step2 pof s l) as [s1|] eqn:S; [|discriminate]. eapply IH; [|exact H]. eapply r2_step; eauto.
+Qed.
